@@ -49,12 +49,12 @@ struct Scen {
     std::vector<std::unique_ptr<Point>> pts; std::mutex pm;
     std::atomic<int> fails{0}; std::string fail_first; std::mutex fm;
     std::atomic<long> completed{0};
-    long ntasks = 0; int conc = 0; uint64_t seed = 0;
+    long ntasks = 0; int conc = 0; uint64_t seed = 0; bool isolated = false;
     void fail(const std::string& key, const std::string& what) { if (fails.fetch_add(1) == 0) { std::lock_guard<std::mutex> l(fm); fail_first = key + "|" + what; } }
     Point& add(int mode, unsigned delay) { std::lock_guard<std::mutex> l(pm); pts.emplace_back(new Point); pts.back()->mode = mode; pts.back()->delay_us = delay; return *pts.back(); }
     std::string describe() {
         std::lock_guard<std::mutex> l(pm);
-        Json j; j.obj(); j.kv("seed", (unsigned long long)seed); j.kv("arena", conc); j.kv("tasks", (long long)ntasks); j.kv("tasks_completed", (long long)completed.load());
+        Json j; j.obj(); j.kv("seed", (unsigned long long)seed); j.kv("arena", conc); j.kv("inside_isolate", isolated); j.kv("tasks", (long long)ntasks); j.kv("tasks_completed", (long long)completed.load());
         j.key("points").arr();
         for (size_t i = 0; i < pts.size() && i < 40; i++) { Point& p = *pts[i]; j.arr(); j.val(mode_name[p.mode]); j.val(p.callbacks.load()); j.val((int)p.resume_called.load()); j.val((int)p.resume_returned.load()); j.val(p.continued.load()); j.val(p.susp_thread.load()); j.val(p.cont_thread.load()); j.end_arr(); }
         j.end_arr(); j.kv("columns", "mode,callback_runs,resume_called,resume_returned,continued,suspending_thread,continuing_thread"); j.end_obj(); return j.s;
@@ -86,11 +86,14 @@ static void do_suspend(Scen& s, int mode, unsigned delay, tbb::task_group* tg) {
     p.running.store(false);
 }
 
-static void task_body(Scen& s, Rng r, tbb::task_group* tg, int depth) {
+// iso: the calling thread is (or may be) inside an isolated region: its waits do not take enqueued (FIFO) tasks, so a resume that is itself an
+// enqueued task of this arena could wait for ever - a deadlock made by the harness; such points are resumed by a foreign thread instead
+static void task_body(Scen& s, Rng r, tbb::task_group* tg, int depth, bool iso_ctx = false) {
     int k = 1 + (int)r.below(3);
     for (int i = 0; i < k; i++) {
         int mode = (int)r.below(NMODES);
         if (mode == AFTER_OTHER_TASK && (!tg || depth > 0)) mode = FOREIGN_NOW;
+        if (mode == ARENA_TASK && (iso_ctx || s.isolated)) mode = FOREIGN_DELAY;
         unsigned delay = mode == FOREIGN_DELAY ? 50 + (unsigned)r.below(1500) : (unsigned)r.below(r.chance(1, 2) ? 40 : 600);
         int nest = (int)r.below(6);
         if (nest == 0 && depth < 2) {
@@ -98,9 +101,9 @@ static void task_body(Scen& s, Rng r, tbb::task_group* tg, int depth) {
             uint64_t sd = r.next();
             tbb::parallel_for(0, 2, [&, sd](int j) { Rng rr(mix(sd, j)); if (j == 0) do_suspend(s, mode == AFTER_OTHER_TASK ? FOREIGN_NOW : mode, delay, nullptr); else spin_iters((unsigned)rr.below(2000)); }, tbb::simple_partitioner());
         } else if (nest == 1 && depth < 2) {
-            tbb::task_group inner; uint64_t sd = r.next();
-            inner.run([&, sd] { task_body(s, Rng(sd), &inner, depth + 1); });
-            inner.wait();
+            uint64_t sd = r.next(); bool iso = r.chance(1, 3);
+            auto nested = [&] { tbb::task_group inner; inner.run([&, sd] { task_body(s, Rng(sd), &inner, depth + 1, iso_ctx || iso); }); if (iso) inner.run([&, sd] { task_body(s, Rng(sd + 1), &inner, depth + 1, true); }); inner.wait(); };
+            if (iso) tbb::this_task_arena::isolate(nested); else nested();
         } else do_suspend(s, mode, delay, tg);
     }
 }
@@ -140,7 +143,12 @@ int main(int argc, char** argv) {
             g_scen = &s;
             if (do_perturb) perturb_random(r, ids);
             bool via_algo = r.chance(1, 5);
+            // a third of the scenarios submit and wait inside this_task_arena::isolate: every dispatch loop of the waiting thread is an
+            // isolated one then, and a resume request still has to be picked up (in a one-slot arena there is nobody else to do it)
+            bool isolated = r.chance(1, 3); s.isolated = isolated;
+            if (isolated) R.stat("scenarios_waiting_inside_isolate"); if (isolated && conc == 1) R.stat("scenarios_waiting_inside_isolate_in_a_one_slot_arena");
             A.execute([&] {
+              auto body = [&] {
                 if (via_algo) {
                     uint64_t sd = r.next();
                     tbb::parallel_for(0, (int)s.ntasks, [&, sd](int i) { task_body(s, Rng(mix(sd, i)), nullptr, 1); s.completed++; }, tbb::simple_partitioner());
@@ -150,6 +158,8 @@ int main(int argc, char** argv) {
                     tg.wait();
                 }
                 if (s.completed.load() != s.ntasks) s.fail("c20.wait-returned-early", "the enclosing wait returned with " + std::to_string(s.completed.load()) + " of " + std::to_string(s.ntasks) + " tasks finished");
+              };
+              if (isolated) tbb::this_task_arena::isolate(body); else body();
             });
             // every resume() call must have returned before the points go away
             for (auto& p : s.pts) { while (!p->resume_returned.load(std::memory_order_acquire)) sched_yield(); if (p->continued.load() != 1) s.fail("c20.continued-count", "suspend point continued " + std::to_string(p->continued.load()) + " times"); }
